@@ -7,11 +7,18 @@ import copy
 import time
 
 
+SHRINKING = False    # read by oracles with a numeric margin: while minimising they demand a wider one
+
+
 def _test(prop, trace, sig):
+    global SHRINKING
+    SHRINKING = True
     try:
         v = prop.execute(trace)
     except Exception:  # noqa: BLE001 - a malformed candidate is simply rejected
         return None
+    finally:
+        SHRINKING = False
     if v.status == "violation" and v.signature == sig:
         return v
     return None
